@@ -114,7 +114,7 @@ fn obs_ctx<Ctx: ScriptContext>(u: &Universe, case: &Value) -> Value {
     let ctx = case["ctx"].as_str().unwrap();
     let ast = &case["ast"];
     let s = ast_to_string(u, ast, ctx);
-    let mut ev = json!({"id": format!("{}", case["id"]), "ev": "ast", "ctx": ctx, "ast": ast, "abs": ast_to_abs(ast)});
+    let mut ev = json!({"id": format!("{}", case["id"]), "ev": "ast", "ctx": ctx, "ast": ast, "abs": ast_to_abs(ast), "dom": case["dom"]});
     // entry points
     let p_insane = catch_unwind(|| Miniscript::<Pk, Ctx>::from_str_insane(&s));
     let p_sane = catch_unwind(|| Miniscript::<Pk, Ctx>::from_str(&s));
